@@ -5,6 +5,7 @@ import (
 	"go/token"
 	"go/types"
 	"regexp"
+	"strconv"
 	"strings"
 
 	"golang.org/x/tools/go/ssa"
@@ -31,6 +32,7 @@ func runC11(p *core.Prog, r *core.Report) {
 	c11R5(p, r)
 	c11R6(p, r)
 	c11R7(p, r)
+	c11R8(p, r)
 }
 
 func isAuthorizationKey(v ssa.Value) bool {
@@ -705,5 +707,51 @@ func c11R7(p *core.Prog, r *core.Report) {
 	}
 	if n == 0 {
 		r.MissingAnchor(rule, "call of (*auth.Auth).HandleResponse in next")
+	}
+}
+
+// ---------------------------------------------------------------------------------------------
+// R8 registry identity is decided by equality
+
+var hostLikeRE = regexp.MustCompile(`^(?:[a-z]+://)?[a-z0-9-]+(?:\.[a-z0-9-]+)+(?::[0-9]+)?(?:/.*)?$`)
+
+func c11R8(p *core.Prog, r *core.Report) {
+	const rule = "C11.R8"
+	r.Rule(rule, "which registry a name (and the credentials stored under it) belongs to is decided by equality: in the packages that load credentials and pick hosts no suffix/prefix/substring/case-folding match is made against a constant host name (registry.corpdocker.io ends in docker.io)", 1)
+	loose := map[string]bool{"HasSuffix": true, "HasPrefix": true, "Contains": true, "EqualFold": true, "Index": true, "LastIndex": true, "ContainsAny": true}
+	scope := map[string]bool{modPath("config"): true, modPath("internal/auth"): true, modPath("internal/reghttp"): true, modPath("types/ref"): true, modPath("."): true, modPath("scheme/reg"): true}
+	n := 0
+	for _, fn := range p.ModFuncs {
+		pk := core.FuncPkg(fn)
+		if pk == nil || !scope[pk.Path()] || fn.Synthetic != "" {
+			continue
+		}
+		lab := labeler{}
+		core.Calls(fn, func(c ssa.CallInstruction) {
+			cal := core.Callee(c)
+			if cal == nil || cal.Pkg() == nil || cal.Pkg().Path() != "strings" || !loose[cal.Name()] {
+				return
+			}
+			n++
+			label := lab.next("strings." + cal.Name())
+			host := ""
+			for _, a := range c.Common().Args {
+				for _, o := range core.Origins(a, core.SliceOpts{}) {
+					if o.Kind == core.OConst {
+						if k, ok := core.ConstString(o.Val); ok && hostLikeRE.MatchString(k) {
+							host = k
+						}
+					}
+				}
+			}
+			if host != "" {
+				r.Violated(rule, p.FuncName(fn), label, p.Pos(c.Pos()), "a name is matched loosely against the host "+strconv.Quote(host)+": a different registry whose name merely contains it is given the same identity, and with it the same credentials")
+			} else {
+				r.Held(rule, p.FuncName(fn), label, p.Pos(c.Pos()), "no constant host name involved")
+			}
+		})
+	}
+	if n == 0 {
+		r.Held(rule, "module", "no loose string match in the credential and host packages", "", "nothing to check")
 	}
 }
